@@ -113,6 +113,10 @@ func (cl *compiler) compileFunc(fn *ast.FuncDecl) *Func {
 			numObjectParams++
 		}
 	}
+	// A parameter is addressed by an 8-bit operand.
+	if numObjectParams > math.MaxUint8+1 || numIntParams > math.MaxUint8+1 {
+		panic(cl.errorf(fn.Name, "too many parameters: a function can have up to %d of a kind", math.MaxUint8+1))
+	}
 
 	dbg := funcDebugInfo{
 		paramNames:    make([]string, numObjectParams),
